@@ -445,3 +445,84 @@ Proof.
       cbn [plain fst snd render_item app]. subst st. rewrite <- !app_assoc. destruct va, vk; reflexivity. }
     rewrite <- Hit. rewrite <- !app_assoc. cbn [app]. rewrite <- !app_assoc. reflexivity.
 Qed.
+
+Example method_text_satisfiable :
+  let sp := mk_argspec [sa "cfg"; sa "a"] (Some (sa "args")) (Some (sa "kw")) 0 [sa "k"] []
+                       [(sa "a", AType (sa "builtins") (sa "int")); (s_return, ANone)] in
+  spec_names_ok sp = true /\ known_F45 sp = false.
+Proof. split; reflexivity. Qed.
+
+(* ---------------------------------------------------------------------------------------- *)
+(* the whole stub                                                                           *)
+(* ---------------------------------------------------------------------------------------- *)
+Definition spec_ok (sp : argspec) : bool := spec_names_ok sp && negb (known_F45 sp).
+Definition methods_ok (fs : list (str * fkind)) : bool :=
+  forallb (fun kf => match snd kf with KMethod sp => spec_ok sp | _ => true end) fs.
+
+Lemma collect_methods_ok : forall fs c, collect fs = Ok c -> methods_ok fs = true ->
+  forallb (fun km => spec_ok (snd km)) (c_methods c) = true.
+Proof.
+  induction fs as [|[k f] r IH]; intros c H Hm.
+  - injection H as <-. reflexivity.
+  - cbn [methods_ok forallb snd] in Hm. apply andb_true_iff in Hm. destruct Hm as [Hf Hr].
+    cbn [collect] in H. destruct f as [a|sp|a].
+    + destruct (arg_annotation k a); cbn [bind] in H; try discriminate.
+      destruct (collect r) as [c'| |]; cbn [bind] in H; try discriminate. injection H as <-. cbn [c_methods]. apply IH; [reflexivity|exact Hr].
+    + destruct (collect r) as [c'| |]; cbn [bind] in H; try discriminate. injection H as <-.
+      cbn [c_methods forallb snd]. rewrite Hf. apply IH; [reflexivity|exact Hr].
+    + destruct (arg_annotation k a); cbn [bind] in H; try discriminate.
+      destruct (collect r) as [c'| |]; cbn [bind] in H; try discriminate. injection H as <-. cbn [c_methods]. apply IH; [reflexivity|exact Hr].
+Qed.
+
+Lemma mapM_method_lines : forall ms, forallb (fun km => spec_ok (snd km)) ms = true ->
+  mapM method_line ms = fmap (map render_def) (mapM method_ast_of ms).
+Proof.
+  induction ms as [|[k sp] r IH]; intros H; [reflexivity|].
+  cbn [forallb snd] in H. apply andb_true_iff in H. destruct H as [Hs Hr].
+  unfold spec_ok in Hs. apply andb_true_iff in Hs. destruct Hs as [Hn HF]. apply negb_true_iff in HF.
+  cbn [mapM]. rewrite (IH Hr). unfold method_line at 1. cbn [fst snd].
+  rewrite (method_text k sp Hn HF). change (method_ast_of (k, sp)) with (method_ast k sp). unfold fmap.
+  destruct (method_ast k sp); cbn [bind]; [|reflexivity|reflexivity].
+  destruct (mapM method_ast_of r); reflexivity.
+Qed.
+
+Lemma init_items : forall attrs,
+  map render_item (items_of (mk_args ((s_self, None) :: map some_snd attrs) None [] None)) = s_self :: map ann_str attrs.
+Proof.
+  intros attrs. unfold items_of. cbn [a_args a_vararg a_kwonly a_kwarg map]. rewrite !app_nil_r.
+  cbn [map plain fst snd render_item]. f_equal. rewrite !map_map. apply map_ext. intros [k t]. reflexivity.
+Qed.
+
+Lemma init_line_eq : forall attrs,
+  sa "    def __init__(" ++ join s_comma (s_self :: map ann_str attrs) ++ sa "): ..." = render_def (init_def attrs).
+Proof.
+  intros attrs. unfold render_def, indent. rewrite render_def_body_eq. unfold init_def. cbn [m_name m_args m_ret ret_str].
+  rewrite init_items.
+  change (sa "    def __init__(") with (s_indent ++ s_def ++ s_init ++ [40]).
+  change (sa "): ...") with ([41] ++ [] ++ s_dots).
+  rewrite <- !app_assoc. reflexivity.
+Qed.
+
+Lemma mapM_length : forall {A B} (f : A -> res B) l l', mapM f l = Ok l' -> length l' = length l.
+Proof.
+  induction l as [|x r IH]; intros l' H.
+  - injection H as <-. reflexivity.
+  - cbn [mapM] in H. destruct (f x); cbn [bind] in H; try discriminate.
+    destruct (mapM f r) as [ys| |]; cbn [bind] in H; try discriminate. injection H as <-. cbn [length]. now rewrite (IH ys).
+Qed.
+
+Theorem stub_lines_render : forall tgt cn fs,
+  methods_ok fs = true ->
+  stub_lines tgt cn fs = fmap render (stub_ast tgt cn fs).
+Proof.
+  intros tgt cn fs Hm. unfold stub_lines, stub_ast, fmap.
+  destruct (class_name_of tgt cn) as [name| |]; cbn [bind]; [|reflexivity|reflexivity].
+  destruct (collect fs) as [c| |] eqn:Ec; cbn [bind]; [|reflexivity|reflexivity].
+  rewrite (mapM_method_lines _ (collect_methods_ok _ _ Ec Hm)). unfold fmap.
+  destruct (mapM method_ast_of (c_methods c)) as [ms| |] eqn:Ems; cbn [bind]; [|reflexivity|reflexivity].
+  f_equal. unfold render. cbn [st_class st_attrs st_init st_methods]. rewrite init_line_eq.
+  pose proof (mapM_length _ _ _ Ems) as Hlen.
+  destruct (c_methods c) as [|km kms]; destruct ms as [|d ds]; cbn [length] in Hlen; try discriminate.
+  - cbn [nonempty map]. rewrite app_nil_r. reflexivity.
+  - cbn [nonempty]. cbn [app]. rewrite <- !app_assoc. reflexivity.
+Qed.
